@@ -29,8 +29,11 @@ SCENARIOS = [("Pin", None), ("Slider", None), ("Screw", None), ("Cylinder", None
              ("Translation", None), ("Gimbal", None), ("Bushing", None),
              ("SphericalCoords", "Mz+++"), ("SphericalCoords", "Mx+-+"), ("SphericalCoords", "Mz-+-"), ("SphericalCoords", "Mx--+"),
              ("Ball", "euler"), ("Ball", "quat"), ("Free", "euler"), ("Free", "quat"), ("Ellipsoid", "euler"), ("Ellipsoid", "quat")]
-# reversed mobilizers proved directly in the quick tier (the others are covered by the abstract reversal lemma; all are direct in the thorough tier)
+# reversed mobilizers proved directly in the quick tier (the others are covered by the abstract reversal lemma)
 REV_DIRECT = {"Pin", "Slider", "Screw", "Cylinder", "Translation", "Universal", "BendStretch", "Planar", "Gimbal", "Ball:euler"}
+# additionally direct in the thorough tier (4-9 min each at 120 s budgets). Free:euler and Ellipsoid:* reversed do not discharge directly within the
+# budget (each HDot goal runs into it) and rest on the abstract reversal lemma in both tiers.
+REV_DIRECT_THOROUGH = REV_DIRECT | {"Bushing", "SphericalCoords:Mz+++", "SphericalCoords:Mx+-+", "SphericalCoords:Mz-+-", "SphericalCoords:Mx--+", "Ball:quat", "Free:quat"}
 
 
 def kin(B, sc, n0, n1, side, U, tag, cls, timeout_ms=20000):
@@ -169,7 +172,7 @@ def main(ctx):
             qdot_family(B, sc, n0, n1, side, U, cls)
             s = z3.Solver(); s.add(*side)
             ctx.add(Obligation("guard:%s side conditions satisfiable" % key, "guards", "z3", "discharged" if s.check() == z3.sat else "undecided", 0, "reachability guard"))
-            if thorough or key in REV_DIRECT:
+            if key in (REV_DIRECT_THOROUGH if thorough else REV_DIRECT):
                 r0 = sc.pass0(True)
                 r1 = sc.pass1(r0, True)
                 kin(B, sc, r0, r1, side, U + ".reversed", " reversed", cls, timeout_ms=120000 if thorough else 20000)
